@@ -567,6 +567,9 @@ func TestVFReplay(t *testing.T) {
 	fmt.Println("VF-RESULT: " + res)
 }
 `, pkgName, harness)
+	if loops > 1 {
+		addYieldOverlay(ov, scratch, yieldDirs(module))
+	}
 	testFile := filepath.Join(scratch, "zz_vf_replay_test.go")
 	os.WriteFile(testFile, []byte(testSrc), 0o644)
 	ov[filepath.Join(pkgDir, "zz_vf_replay_test.go")] = testFile
@@ -620,6 +623,16 @@ func TestVFReplay(t *testing.T) {
 		}
 	}
 	return last
+}
+
+// yieldDirs: the packages whose statements become scheduling points in the
+// native replay of an interleaving counterexample.
+func yieldDirs(module string) []string {
+	if module == "server" {
+		return []string{"server/utils", "server/service", "server/snapshot", "server/managers", "server/notification",
+			"client/pkg/internal/datatypes", "client/pkg/internal/managers"}
+	}
+	return []string{"client/pkg/internal/datatypes", "client/pkg/internal/managers"}
 }
 
 func packageNameOf(ov map[string]string, dir string) string {
